@@ -16,6 +16,7 @@
 #include <sstream>
 #include <iostream>
 #include <stdexcept>
+#include <memory>
 #include "dummy_api.h"     // /repo/tests/dummy_api.h: the in-memory connection the repository's own tests use
 #include "hexio.h"
 using namespace hx;
@@ -48,6 +49,11 @@ struct Rec {
 	void m3(R a,R b,R c) { std::vector<S> v; v.push_back(a); v.push_back(b); v.push_back(c); fire(v); }
 	void m4(R a,R b,R c,R d) { std::vector<S> v; v.push_back(a); v.push_back(b); v.push_back(c); v.push_back(d); fire(v); }
 	void m5(R a,R b,R c,R d,R e) { std::vector<S> v; v.push_back(a); v.push_back(b); v.push_back(c); v.push_back(d); v.push_back(e); fire(v); }
+	// map-style members with int parameters (parse_url_parameter through an istream); printed in decimal
+	static S dec(int v) { std::ostringstream o; o.imbue(std::locale::classic()); o << v; return o.str(); }
+	void i1(int a) { std::vector<S> v; v.push_back(dec(a)); fire(v); }
+	void i2(int a,int b) { std::vector<S> v; v.push_back(dec(a)); v.push_back(dec(b)); fire(v); }
+	void i3(int a,int b,int c) { std::vector<S> v; v.push_back(dec(a)); v.push_back(dec(b)); v.push_back(dec(c)); fire(v); }
 	void m6(R a,R b,R c,R d,R e,R f) { std::vector<S> v; v.push_back(a); v.push_back(b); v.push_back(c); v.push_back(d); v.push_back(e); v.push_back(f); fire(v); }
 };
 
@@ -108,8 +114,18 @@ public:
 	std::vector<Rec *> recs;
 	std::vector<bool> attached;
 	std::string out_;
+	bool http_root;                      // set by C20_http.cpp: the application object served through a real connection
 
-	Node(cppcms::service &srv,AppD const &d) : cppcms::application(srv)
+	// the http harness needs the handler firings in the response body: application::main is still what runs
+	virtual void main(std::string url)
+	{
+		if(!http_root) { cppcms::application::main(url); return; }
+		g_log.clear();
+		cppcms::application::main(url);
+		if(!g_log.empty()) response().out() << g_log;
+	}
+
+	Node(cppcms::service &srv,AppD const &d) : cppcms::application(srv), http_root(false)
 	{
 		for(size_t i=0;i<d.kids.size();i++) { kids.push_back(new Node(srv,d.kids[i])); attached.push_back(false); }
 		try {
@@ -149,6 +165,20 @@ public:
 			case 5: d.assign(o.pat,&Rec::a5,r,s[0],s[1],s[2],s[3],s[4]); break;
 			case 6: d.assign(o.pat,&Rec::a6,r,s[0],s[1],s[2],s[3],s[4],s[5]); break;
 			default: throw unsupported("assign arity");
+			}
+		}
+		else if(o.kind=='i') {
+			if(o.anym) switch(s.size()) {
+			case 1: d.map(o.pat,&Rec::i1,r,s[0]); break;
+			case 2: d.map(o.pat,&Rec::i2,r,s[0],s[1]); break;
+			case 3: d.map(o.pat,&Rec::i3,r,s[0],s[1],s[2]); break;
+			default: throw unsupported("int map arity");
+			}
+			else switch(s.size()) {
+			case 1: d.map(o.mpat,o.pat,&Rec::i1,r,s[0]); break;
+			case 2: d.map(o.mpat,o.pat,&Rec::i2,r,s[0],s[1]); break;
+			case 3: d.map(o.mpat,o.pat,&Rec::i3,r,s[0],s[1],s[2]); break;
+			default: throw unsupported("int map arity");
 			}
 		}
 		else if(o.anym) {
@@ -282,6 +312,8 @@ static std::string run_tree(Toks &t)
 	for(size_t i=0;i<vals.size();i++) root->mapper().set_value(vals[i].first,vals[i].second);
 	std::ostringstream out;
 	bool first=true;
+	std::unique_ptr<Node> alt;
+	static const std::string invalid_marker="/this_is_an_invalid_url_generated_by_url_mapper";
 	while(!t.end()) {
 		std::string q=t.next();
 		std::string r;
@@ -300,6 +332,17 @@ static std::string run_tree(Toks &t)
 				r="U "+hex(u);
 				if(q=="x") r+=" "+root->run_main(u,"h","/s",u,"GET");
 			}
+			// the same call on an identical tree living in a service with the other setting of
+			// misc.invalid_url_throws: the switch may only turn an exception into the marker url
+			if(!alt.get()) {
+				alt.reset(new Node(service_for(!throws),d));
+				for(size_t i=0;i<vals.size();i++) alt->mapper().set_value(vals[i].first,vals[i].second);
+			}
+			bool ok2; std::string u2=alt->at(pos)->run_map(key,p,ok2);
+			bool same;
+			if(throws) same = ok ? (ok2 && u2==u) : (ok2 && u2==invalid_marker);      // alt is the no-throw one
+			else       same = ok2 ? (ok && u==u2) : (u2.empty() && ok && u==invalid_marker);
+			if(!same) r+=std::string(" ! ALT-DIFF ")+(ok2?"U "+hex(u2):(u2.empty()?std::string("E"):"E "+u2));
 		}
 		else throw std::runtime_error("query "+q);
 		if(!first) out<<" | ";
@@ -394,6 +437,7 @@ static std::string run_pools(Toks &t)
 	return out.str();
 }
 
+#ifndef C20_ROUTING_NO_MAIN
 int main()
 {
 	std::string line;
@@ -413,3 +457,4 @@ int main()
 	std::cout.flush();
 	return 0;
 }
+#endif
